@@ -1260,6 +1260,223 @@ def _root_name(e):
     return e.id if isinstance(e, ast.Name) else None
 
 
+def _memo_of_pure_call(f, fself, attr, mentions) -> bool:
+    """Rewrite, in place, the memo of a pure library call
+
+        K = (k1, .., kn)                                    v = F(k1, .., kn)
+        if (v := self.C.get(K)) is None:          ==>       return v
+            v = self.C[K] = F(k1, .., kn)
+        return v
+
+    (also with `v = self.C.get(K)` / `if v is None:` / `v = F(..)` / `self.C[K] = v` as separate statements).  Conditions: K is a
+    local bound once to a tuple of plain names (or that tuple written in place), F is a function of an imported module (not a
+    method of self) called with exactly those names, the table is mentioned nowhere else in the method."""
+    def is_table(e):
+        return isinstance(e, ast.Attribute) and e.attr == attr and isinstance(e.value, ast.Name) and e.value.id == fself
+
+    def key_names(e, blk, idx):
+        if isinstance(e, ast.Tuple) and all(isinstance(x, ast.Name) for x in e.elts):
+            return [x.id for x in e.elts]
+        if isinstance(e, ast.Name):
+            defs = [s_ for s_ in ast.walk(f) if isinstance(s_, ast.Assign) and len(s_.targets) == 1 and isinstance(s_.targets[0], ast.Name) and s_.targets[0].id == e.id]
+            if len(defs) == 1 and isinstance(defs[0].value, ast.Tuple) and all(isinstance(x, ast.Name) for x in defs[0].value.elts):
+                return [x.id for x in defs[0].value.elts]
+        return None
+
+    def pure_call_of(e, names):
+        if not (isinstance(e, ast.Call) and not e.keywords and all(isinstance(a, ast.Name) for a in e.args)):
+            return False
+        fn = e.func
+        root = fn
+        while isinstance(root, ast.Attribute):
+            root = root.value
+        if not (isinstance(fn, ast.Attribute) and isinstance(root, ast.Name) and root.id != fself):
+            return False
+        return [a.id for a in e.args] == names
+
+    for holder in ast.walk(f):
+        for fld in ("body", "orelse"):
+            blk = getattr(holder, fld, None)
+            if not (isinstance(blk, list) and blk and isinstance(blk[0], ast.stmt)):
+                continue
+            for i, st in enumerate(blk):
+                if not (isinstance(st, ast.If) and not st.orelse and isinstance(st.test, ast.Compare) and len(st.test.ops) == 1
+                        and isinstance(st.test.ops[0], ast.Is) and isinstance(st.test.comparators[0], ast.Constant) and st.test.comparators[0].value is None):
+                    continue
+                left = st.test.left
+                pre_get = None
+                if isinstance(left, ast.NamedExpr) and isinstance(left.target, ast.Name):
+                    var, get = left.target.id, left.value
+                elif isinstance(left, ast.Name) and i > 0 and isinstance(blk[i - 1], ast.Assign) and len(blk[i - 1].targets) == 1 \
+                        and isinstance(blk[i - 1].targets[0], ast.Name) and blk[i - 1].targets[0].id == left.id:
+                    var, get, pre_get = left.id, blk[i - 1].value, blk[i - 1]
+                else:
+                    continue
+                if not (isinstance(get, ast.Call) and isinstance(get.func, ast.Attribute) and get.func.attr == "get" and is_table(get.func.value)
+                        and len(get.args) == 1 and not get.keywords):
+                    continue
+                names = key_names(get.args[0], blk, i)
+                if not names:
+                    continue
+                key_src = ast.unparse(get.args[0])
+                # the body: v = self.C[K] = F(..)   |   v = F(..); self.C[K] = v
+                value = None
+                table_mentions = 1
+                b = st.body
+                if len(b) == 1 and isinstance(b[0], ast.Assign) and len(b[0].targets) == 2:
+                    t1, t2 = b[0].targets
+                    sub = t2 if isinstance(t1, ast.Name) else t1
+                    nm = t1 if isinstance(t1, ast.Name) else t2
+                    if isinstance(nm, ast.Name) and nm.id == var and isinstance(sub, ast.Subscript) and is_table(sub.value) and ast.unparse(sub.slice) == key_src:
+                        value = b[0].value
+                        table_mentions += 1
+                elif len(b) == 2 and all(isinstance(x, ast.Assign) and len(x.targets) == 1 for x in b):
+                    a1, a2 = b
+                    if (isinstance(a1.targets[0], ast.Name) and a1.targets[0].id == var and isinstance(a2.targets[0], ast.Subscript)
+                            and is_table(a2.targets[0].value) and ast.unparse(a2.targets[0].slice) == key_src
+                            and isinstance(a2.value, ast.Name) and a2.value.id == var):
+                        value = a1.value
+                        table_mentions += 1
+                if value is None or not pure_call_of(value, names) or mentions != table_mentions:
+                    continue
+                nxt = blk[i + 1] if i + 1 < len(blk) else None
+                if not (isinstance(nxt, ast.Return) and isinstance(nxt.value, ast.Name) and nxt.value.id == var):
+                    continue
+                new = ast.copy_location(ast.Assign(targets=[ast.Name(id=var, ctx=ast.Store())], value=value), st)
+                ast.fix_missing_locations(new)
+                blk[i] = new
+                if pre_get is not None:
+                    blk.remove(pre_get)
+                return True
+    return False
+
+
+def normalise_memo_tables(tree: ast.Module) -> int:
+    """A hand-written per-instance memo table is the `lru_cache` idiom the package uses:
+
+        def __init__(..):  self._c = {}                      def __init__(..):  self.f = lru_cache(None)(self.f)
+        def f(self, k):                                       def f(self, k):
+            if k in self._c: return self._c[k]       ==>          v = <compute from k>
+            v = <compute from k>                                  return v
+            self._c[k] = v
+            return v
+
+    Recognised only when it is exactly that: the table is created empty, once, unconditionally in `__init__`, is an instance
+    attribute (no class-level name of that spelling), is touched by `f` alone, is keyed by ALL parameters of `f`, every store puts
+    the value that is returned right after under the key that was looked up, and nothing deletes from it.  A table that is shared
+    between objects, keyed by part of the arguments or filled with something else stays what it is - a store on the read path."""
+    n = 0
+    for cls in ast.walk(tree):
+        if not isinstance(cls, ast.ClassDef):
+            continue
+        methods = [m for m in cls.body if isinstance(m, ast.FunctionDef)]
+        init = next((m for m in methods if m.name == "__init__"), None)
+        if init is None or not init.args.args:
+            continue
+        class_names = {t.id for st in cls.body if isinstance(st, (ast.Assign, ast.AnnAssign))
+                       for t in (st.targets if isinstance(st, ast.Assign) else [st.target]) if isinstance(t, ast.Name)}
+        iself = init.args.args[0].arg
+        for st in list(init.body):
+            tgt = None
+            if isinstance(st, ast.Assign) and len(st.targets) == 1:
+                tgt, val = st.targets[0], st.value
+            elif isinstance(st, ast.AnnAssign) and st.value is not None:
+                tgt, val = st.target, st.value
+            if not (isinstance(tgt, ast.Attribute) and isinstance(tgt.value, ast.Name) and tgt.value.id == iself and isinstance(val, ast.Dict) and not val.keys):
+                continue
+            attr = tgt.attr
+            if attr in class_names:
+                continue
+            # every other mention of the attribute in the class
+            users = {}
+            ok = True
+            for m in methods:
+                for x in ast.walk(m):
+                    if isinstance(x, ast.Attribute) and x.attr == attr and not (m is init and x is tgt):
+                        users.setdefault(m.name, []).append(x)
+            for x in ast.walk(tree):
+                if isinstance(x, ast.Attribute) and x.attr == attr and not any(x is y for m in methods for y in ast.walk(m)):
+                    ok = False  # used outside the class
+                if isinstance(x, ast.Constant) and x.value == attr:
+                    ok = False
+            if not ok or len(users) != 1 or "__init__" in users:
+                continue
+            f = next(m for m in methods if m.name == next(iter(users)))
+            if f.decorator_list or not f.args.args or f.args.vararg or f.args.kwarg or f.args.kwonlyargs:
+                continue
+            fself = f.args.args[0].arg
+            params = [a.arg for a in f.args.args[1:]]
+            if not params:
+                continue
+            body = _strip_doc(f.body)
+
+            def is_table(e):
+                return isinstance(e, ast.Attribute) and e.attr == attr and isinstance(e.value, ast.Name) and e.value.id == fself
+
+            def is_key(e):
+                if len(params) == 1:
+                    return isinstance(e, ast.Name) and e.id == params[0]
+                return isinstance(e, ast.Tuple) and [getattr(x, "id", None) for x in e.elts] == params
+
+            if _memo_of_pure_call(f, fself, attr, len(users[f.name])):
+                # second form: `if (v := self.C.get(K)) is None: v = self.C[K] = F(k1, .., kn)` with K = (k1, .., kn) - the value is
+                # a function of the key's components alone, whatever the method's own parameters are
+                init.body.remove(st)
+                n += 1
+                continue
+            first = body[0] if body else None
+            if not (isinstance(first, ast.If) and not first.orelse and len(first.body) == 1 and isinstance(first.body[0], ast.Return)
+                    and isinstance(first.test, ast.Compare) and len(first.test.ops) == 1 and isinstance(first.test.ops[0], ast.In)
+                    and is_key(first.test.left) and is_table(first.test.comparators[0])
+                    and isinstance(first.body[0].value, ast.Subscript) and is_table(first.body[0].value.value) and is_key(first.body[0].value.slice)):
+                continue
+            # parameters are not re-assigned (the key at the store is the key that was looked up)
+            if any(isinstance(x, ast.Name) and x.id in params and isinstance(x.ctx, (ast.Store, ast.Del)) for x in ast.walk(f)):
+                continue
+            stores = []
+            good = True
+            expected_mentions = 2  # the look-up test and the cached return
+
+            def scan(block):
+                nonlocal good
+                for i, s_ in enumerate(block):
+                    if isinstance(s_, ast.Assign) and len(s_.targets) == 1 and isinstance(s_.targets[0], ast.Subscript) and is_table(s_.targets[0].value):
+                        nxt = block[i + 1] if i + 1 < len(block) else None
+                        if not (is_key(s_.targets[0].slice) and isinstance(s_.value, ast.Name) and isinstance(nxt, ast.Return)
+                                and isinstance(nxt.value, ast.Name) and nxt.value.id == s_.value.id):
+                            good = False
+                        stores.append((block, s_))
+                    for fld in ("body", "orelse", "finalbody"):
+                        sub = getattr(s_, fld, None)
+                        if isinstance(sub, list) and sub and isinstance(sub[0], ast.stmt):
+                            scan(sub)
+            scan(f.body)
+            mentions = len(users[f.name])
+            if not good or not stores or mentions != expected_mentions + len(stores):
+                continue
+            # rewrite
+            for blk, s_ in stores:
+                blk.remove(s_)
+            f.body.remove(first)
+            wrap = ast.Call(func=ast.Call(func=ast.Name(id="lru_cache", ctx=ast.Load()), args=[ast.Constant(value=None)], keywords=[]),
+                            args=[ast.Attribute(value=ast.Name(id=iself, ctx=ast.Load()), attr=f.name, ctx=ast.Load())], keywords=[])
+            new = ast.Assign(targets=[ast.Attribute(value=ast.Name(id=iself, ctx=ast.Load()), attr=f.name, ctx=ast.Store())], value=wrap)
+            init.body[init.body.index(st)] = ast.copy_location(new, st)
+            n += 1
+    if n:
+        ast.fix_missing_locations(tree)
+        # the idiom needs the name: `from functools import lru_cache`
+        if not any(isinstance(x, ast.ImportFrom) and x.module == "functools" and any(a.name == "lru_cache" for a in x.names) for x in tree.body):
+            imp = ast.ImportFrom(module="functools", names=[ast.alias(name="lru_cache")], level=0)
+            ast.copy_location(imp, tree.body[0])
+            ast.fix_missing_locations(imp)
+            idx = 1 if tree.body and isinstance(tree.body[0], ast.Expr) and isinstance(getattr(tree.body[0], "value", None), ast.Constant) else 0
+            while idx < len(tree.body) and isinstance(tree.body[idx], ast.ImportFrom) and tree.body[idx].module == "__future__":
+                idx += 1
+            tree.body.insert(idx, imp)
+    return n
+
+
 def normalise_byte_accumulators(tree: ast.Module) -> int:
     """A local `buf = bytearray()` / `buf = b""` that is only ever extended (`buf.extend(e)`, `buf += e`) and finally returned
     (`return bytes(buf)` / `return buf`) is the list of pieces joined at the end: `buf = []`, `buf.append(e)`,
@@ -1477,8 +1694,25 @@ class _TableGet(ast.NodeTransformer):
     def visit_Call(self, node: ast.Call):
         self.generic_visit(node)
         f = node.func
+        # filter(f, S) / map(f, S) with a named function are the generator expressions (x for x in S if f(x)) / (f(x) for x in S)
+        if (isinstance(f, ast.Name) and f.id in ("filter", "map") and len(node.args) == 2 and not node.keywords
+                and isinstance(node.args[0], (ast.Name, ast.Attribute)) and not (isinstance(node.args[0], ast.Name) and node.args[0].id == "None")
+                and not any(isinstance(x, (ast.Call, ast.NamedExpr, ast.Await, ast.Yield)) for x in ast.walk(node.args[0]))):
+            self.n += 1
+            var = f"{_PREFIX}f{self.n}_x"
+            call = ast.Call(func=copy.deepcopy(node.args[0]), args=[ast.Name(id=var, ctx=ast.Load())], keywords=[])
+            gen = ast.comprehension(target=ast.Name(id=var, ctx=ast.Store()), iter=node.args[1], ifs=[call] if f.id == "filter" else [], is_async=0)
+            elt = ast.Name(id=var, ctx=ast.Load()) if f.id == "filter" else call
+            new = ast.copy_location(ast.GeneratorExp(elt=elt, generators=[gen]), node)
+            ast.fix_missing_locations(new)
+            return new
         if (isinstance(f, ast.Name) and f.id == "next" and 1 <= len(node.args) <= 2 and not node.keywords and isinstance(node.args[0], ast.GeneratorExp)
-                and len(node.args[0].generators) == 1 and not node.args[0].generators[0].is_async and len(node.args) == 2):
+                and len(node.args[0].generators) == 1 and not node.args[0].generators[0].is_async):
+            if len(node.args) == 1:
+                # no default: running out of rows raises StopIteration, as next() on an empty iterator does
+                node.args.append(ast.copy_location(ast.Call(func=ast.Name(id="next", ctx=ast.Load()), args=[
+                    ast.Call(func=ast.Name(id="iter", ctx=ast.Load()), args=[ast.Tuple(elts=[], ctx=ast.Load())], keywords=[])], keywords=[]), node))
+                ast.fix_missing_locations(node)
             # next((E(x) for x in ROWS if T(x)), D)  ->  E(r1) if T(r1) else E(r2) if T(r2) else ... D     (first match of a literal table)
             g = node.args[0]
             gen = g.generators[0]
